@@ -140,6 +140,12 @@ class FnContract:
     def use(self, eng, st, selfv, args, kws):
         node = eng.src.find(self.qual)
         bound = self.bind(eng, node, selfv, args, kws, st)
+        if not self.generic and self.qual in GENERIC and 'bytesio' in self.stream_models and 'adv' not in self.stream_models:
+            sv = bound.get(self.stream_arg)
+            o = st.get(sv) if isinstance(sv, VRef) else None
+            if getattr(o, 'model', None) == 'adv':
+                # functional clauses speak about buffers: under the adversarial model only the cross-cutting contract applies
+                return GENERIC[self.qual].use(eng, st, selfv, args, kws)
         kinds = getattr(self.setup, 'kinds', None) or {}
         for an, kd in kinds.items():
             v = bound.get(an)
@@ -221,6 +227,8 @@ class FnContract:
     def verify(self, src, make_models, stream_model='bytesio', variant=None):
         """-> VerifyResult with obligations for every path end and every loop"""
         node = src.find(self.qual)
+        from . import values as _values
+        _values._counter[0] = 0          # names are deterministic per function: identical queries on identical source
         models = make_models(stream_model)
         mod = self.qual.split(':')[0]
         models.this_module = mod
@@ -336,6 +344,7 @@ class VerifyResult:
 
 
 REGISTRY = {}
+GENERIC = {}
 
 
 def register(c):
